@@ -130,3 +130,75 @@ Theorem c04_swo_is_what_is_used : forall (A : Type) (lt : A -> A -> bool),
   (forall a b, lt a b = true -> lt b a = false) /\ (forall a b c, lt b a = false -> lt c b = false -> lt c a = false).
 Proof. exact t_swo_iff. Qed.
 Print Assumptions c04_swo_is_what_is_used.
+
+(* ==== heapz.Heap: *Element handles ====
+   A world is two heaps over one population of elements; a handle is the element's creation number.
+   [WInv w]: every element held by a heap caches its position and that heap as owner, no element is held twice,
+   every other element reports index -1 and owner nil, and both handle arrays are in heap order with respect to
+   the elements' current values.  [J w j]: the judge's state (live handles per heap, values) describes w. *)
+
+(* every API operation preserves the invariant, never reaches the "invalid index" panic, never runs out of fuel,
+   and what it reports (result, Index() of every handle) is accepted by the priority-queue judge *)
+Theorem c04_heap_step : forall (A : Type) (d : A) (lt eqb : A -> A -> bool),
+  strict_weak_order A lt -> (forall a b, eqb a b = true <-> a = b) ->
+  forall w j o, WInv A d lt w -> J A w j -> hop_wf A o = true ->
+  exists w' r j', hstep A d lt w o = Ok (w', r) /\ jh_step A d lt eqb j o r (map (eidx A) (wst A w')) = HGo A j' /\
+                  WInv A d lt w' /\ J A w' j'.
+Proof. exact t_hstep_invariant. Qed.
+Print Assumptions c04_heap_step.
+
+(* every operation sequence on two fresh heaps — handles of either heap, stale and unknown handles, PushElement of
+   a popped element, Init on a used heap, value changes followed by Fix on both heaps in either order, PopAll cut
+   short — is accepted by the judge (this is Run/C04.v sub 1 for kind 1) *)
+Theorem c04_heap_refines_pq : forall (A : Type) (d : A) (lt eqb : A -> A -> bool),
+  strict_weak_order A lt -> (forall a b, eqb a b = true <-> a = b) ->
+  forall ops, forallb (hop_wf A) ops = true ->
+  (exists tr, hcase A d lt ops = Ok tr) /\ jh_case A d lt eqb ops (hcase A d lt ops) = true.
+Proof. exact t_hcase_judged. Qed.
+Print Assumptions c04_heap_refines_pq.
+
+(* Remove(e) removes exactly e; e then reports Index() == -1; every other handle stays valid *)
+Theorem c04_remove_handle : forall (A : Type) (d : A) (lt : A -> A -> bool), strict_weak_order A lt ->
+  forall h mine other st e,
+  HS A d h mine other st -> Ord A d lt mine other st -> h = 0%Z \/ h = 1%Z -> In e mine ->
+  exists mine' st', hp_remove A d lt h (mine, st) e = Ok (mine', st') /\
+    HS A d h mine' other st' /\ Ord A d lt mine' other st' /\ Permutation (e :: mine') mine /\
+    length st' = length st /\ (forall x, valof A d st' x = valof A d st x) /\ eidx A (getE A d st' e) = (-1)%Z.
+Proof. exact t_remove_handle. Qed.
+Print Assumptions c04_remove_handle.
+
+(* an element that has left the heap, an element of the other heap, a handle never issued: ignored by Remove and Fix *)
+Theorem c04_foreign_and_stale_ignored : forall (A : Type) (d : A) (lt : A -> A -> bool) h mine other st e,
+  HS A d h mine other st -> h = 0%Z \/ h = 1%Z -> ~ In e mine ->
+  hp_remove A d lt h (mine, st) e = Ok (mine, st) /\ hp_fix A d lt h (mine, st) e = Ok (mine, st).
+Proof. exact t_foreign_ignored. Qed.
+Print Assumptions c04_foreign_and_stale_ignored.
+
+(* Fix(e) after e.Value changed: order restored, same elements, all handles still valid *)
+Theorem c04_fix_handle : forall (A : Type) (d : A) (lt : A -> A -> bool), strict_weak_order A lt ->
+  forall h mine other st e (val0 : nat -> A),
+  HS A d h mine other st -> h = 0%Z \/ h = 1%Z -> In e mine ->
+  (forall x, x <> e -> valof A d st x = val0 x) -> heap_ok nat 0 (ltE A lt val0) mine (length mine) ->
+  heap_ok nat 0 (ltE A lt (valof A d st)) other (length other) ->
+  exists mine' st', hp_fix A d lt h (mine, st) e = Ok (mine', st') /\
+    HS A d h mine' other st' /\ Ord A d lt mine' other st' /\ Permutation mine' mine /\
+    length st' = length st /\ (forall x, valof A d st' x = valof A d st x).
+Proof. exact t_fix_handle. Qed.
+Print Assumptions c04_fix_handle.
+
+(* Pop returns the root handle, nothing in the heap precedes it, it then reports -1 *)
+Theorem c04_pop_handle : forall (A : Type) (d : A) (lt : A -> A -> bool), strict_weak_order A lt ->
+  forall h mine other st, HS A d h mine other st -> Ord A d lt mine other st -> 1 <= length mine ->
+  exists mine' st', hp_pop A d lt (mine, st) = Ok ((mine', st'), Z.of_nat (nth 0 mine 0)) /\
+    HS A d h mine' other st' /\ Ord A d lt mine' other st' /\ Permutation (nth 0 mine 0 :: mine') mine /\
+    (forall y, In y mine -> lt (valof A d st y) (valof A d st (nth 0 mine 0)) = false) /\
+    length st' = length st /\ (forall x, valof A d st' x = valof A d st x) /\ eidx A (getE A d st' (nth 0 mine 0)) = (-1)%Z.
+Proof. exact t_pop_handle. Qed.
+Print Assumptions c04_pop_handle.
+
+(* the Index() values of a world satisfying the invariant pass the judge's view check: live handles of each heap sit
+   on 0..len-1 in heap order, everything else reports -1 *)
+Theorem c04_invariant_is_observable : forall (A : Type) (d : A) (lt : A -> A -> bool) w j,
+  WInv A d lt w -> J A w j -> view_ok A d lt j (map (eidx A) (wst A w)) = true.
+Proof. exact t_view_ok. Qed.
+Print Assumptions c04_invariant_is_observable.
